@@ -582,7 +582,10 @@ def _mk_press(mb, fb, d):
             byty.setdefault(t, []).append(v)
         for t, vs in byty.items():
             if len(vs) >= 2:
-                for op in ("/", "%", "<<", ">>", "*"):
+                if t == "ptr":
+                    continue
+                # remainder and shifts are integer operations (no front end produces them on floating point values)
+                for op in (("/", "%", "<<", ">>", "*") if is_int(t) else ("/", "*")):
                     extra.append((fb.v("bin", op, vs[0], vs[1], t), t))
     for v in reversed(vals):
         fb.s("store", v, "@h", True)
